@@ -229,9 +229,27 @@ def p_connectionMade(s, P):
     fsm = s.get(P, 'fsm')
     peering = s.get(P, 'factory')
     s.c.requires(z3.And(T(s.get(fsm, 'state')) == ST_CONNECT, live_protocol(s, fsm)), 'T1: fresh live connection in Connect')
-    s.dont_care(peering, 'bgp_id')          # C05 owns the identifier
+    s.c.requires(z3.Not(Bt(s.get(P, 'fourbytesas'))), 'T1: connectionMade follows buildProtocol at once: a freshly constructed protocol instance')
+    # C05: a stable BGP identifier — chosen once (from the local address of the first connection), never changed
+    if s.get(peering, 'bgp_id') is None:
+        s.set(peering, 'bgp_id', local_address_identifier(s, P))
+    # C05: the peer capabilities recorded in the running configuration are those of THIS connection
+    from .open_send import caps
+    s.set(caps(s), 'remote', {})
     ev_connection_made.row(s, fsm)
     return None
+
+
+def local_address_identifier(s, P):
+    """the IPv4 address of the local end of the connection as a 32-bit integer (127.0.0.1 for IPv6 / errors)"""
+    tr = s.get(P, 'transport')
+    host = tr.f.get('_getHost').f['host'] if tr.f.get('_getHost') is not None else '10.0.0.1'
+    import ipaddress
+    try:
+        ip = ipaddress.ip_address(host)
+    except ValueError:
+        return 0x7f000001
+    return int(ip) if ip.version == 4 else 0x7f000001
 
 
 @proto_entry
